@@ -113,3 +113,20 @@ Definition witness_ok (f : file) (o : wobs) : bool :=
 
 Definition witness_mismatches (cs : list (int * file * wobs)) : list N :=
   flat_map (fun c => match c with (i, f, o) => if witness_ok f o then [] else [n_of i] end) cs.
+
+(* runtime stream: the metadata the server decoder saw per key, the handler's stages *)
+Definition stage_eqb (a b : stage) : bool :=
+  match a, b with SDecode, SDecode | SEndpoint, SEndpoint | SEncode, SEncode => true | _, _ => false end.
+Fixpoint stages_eqb (a b : list stage) : bool :=
+  match a, b with
+  | [], [] => true
+  | x :: a', y :: b' => stage_eqb x y && stages_eqb a' b'
+  | _, _ => false
+  end.
+
+Definition runtime_mismatches
+  (cs : list (int * mdata * list (str * list str) * list (str * list str) * bool * bool * list stage)) : list N :=
+  flat_map (fun c => match c with (i, caller, written, seen, dok, eok, tr) =>
+     let m := md_write caller written in
+     if forallb (fun kv => strs_eqb (md_get m (fst kv)) (snd kv)) seen && stages_eqb (handle_trace dok eok) tr
+     then [] else [n_of i] end) cs.
